@@ -59,12 +59,17 @@ def rfields(rnd, depth=0):
 
 
 def mkreg(rnd):
-    if rnd.random() < .06:      # nested names that are joined to the same submodule name
+    x = rnd.random()
+    if x < .06:      # nested names that are joined to the same submodule name
         return csr.Register({"a": {"b__c": csr.Field(action.R, 1)}, "a__b": {"c": csr.Field(action.RW, 2)}}, access="rw")
+    if x < .10:      # three paths with the same joined name, the middle one without bits; names that look like disambiguated ones
+        mid = rnd.choice([0, 1])
+        return csr.Register({"a": {"b": {"c": csr.Field(action.RW, 4)}, "b__c": csr.Field(action.RW, mid)}, "a__b": {"c": csr.Field(action.R, 2)},
+                             "a__b__c_4": csr.Field(action.RW, 1), "a__b__c_": csr.Field(action.RW, 1)}, access="rw")
     return csr.Register(rfields(rnd), access="rw")
 
 
-def make(kind, rnd, hook=None):
+def make(kind, rnd, hook=None, extra_names=()):
     """returns (component, extra submodules, description, memory_map or None); `hook(component)` is
     called before every add() of a container (decoders, arbiter)"""
     hook = hook or (lambda c: None)
@@ -88,7 +93,22 @@ def make(kind, rnd, hook=None):
         b = csr.Builder(addr_width=rnd.randint(1, 8), data_width=dw,
                         granularity=rnd.choice([g for g in (1, 2, 4, 8, 16, 32) if dw % g == 0]))
         scopes = []
-        for i in range(rnd.randint(0, 5)):
+        family = rnd.random() < .15
+        if family:
+            # a family of names around one collision, in random order at consecutive addresses: the cluster a/b, "a__b",
+            # and names that look like a disambiguated "a__b" (suffix, counter, address)
+            pool = ["a__b", "a__b_", "a__b__", "a__b_0", "a__b_1", "a__b_2", "a__b_3", "a__b_4", ("a", "b")]
+            for nm_ in rnd.sample(pool, rnd.randint(3, 6)):
+                try:
+                    if isinstance(nm_, tuple):
+                        with b.Cluster(nm_[0]):
+                            b.add(nm_[1], csr.Register({"f": csr.Field(action.RW, 1)}, access="rw"))
+                    else:
+                        b.add(nm_, csr.Register({"f": csr.Field(action.RW, 1)}, access="rw"))
+                    scopes.append([str(nm_)])
+                except ValueError:
+                    pass
+        for i in range(0 if family else rnd.randint(0, 5)):
             with contextlib.ExitStack() as st:
                 sc = []
                 for _ in range(rnd.randint(0, 2)):
@@ -110,6 +130,18 @@ def make(kind, rnd, hook=None):
                         with b.Index(0):
                             b.add("x", mkreg(rnd))
                     b.add("a__0__x", mkreg(rnd)); scopes.append(["a/0/x", "a__0__x"])
+                    if rnd.random() < .5:
+                        # … and registers whose names look like what a disambiguation might produce
+                        for extra_name in rnd.sample(["a__0__x_", "a__0__x_1", "a__0__x_2", "a__0__x__", "mux_", "mux"], 3):
+                            try:
+                                b.add(extra_name, mkreg(rnd)); scopes.append([extra_name])
+                            except ValueError:
+                                pass
+            except ValueError:
+                pass
+        for en in extra_names:
+            try:
+                b.add(en, csr.Register({"f": csr.Field(action.RW, 1)}, access="rw")); scopes.append([en])
             except ValueError:
                 pass
         mm = b.as_memory_map()
@@ -300,6 +332,29 @@ def run_case(case):
         after = fmt_map(mm)
         if before != after:
             out["fails"].append(("C19", f"{kind} {descr}: elaboration changed the memory map", "map-changed"))
+        if kind == "Bridge":
+            # whatever scheme gives colliding registers their submodule names: a further register that is CALLED
+            # like one of the names the scheme produced is legal too, and the bridge must still elaborate
+            try:
+                from amaranth.hdl import Fragment
+                joined = {"__".join(str(p_) for p_ in n_) for _, n_, _ in mm.resources()} | {"mux"}
+                made = [n_ for _, n_, *_ in Fragment.get(c, None).subfragments if isinstance(n_, str) and n_ not in joined]
+                if made:
+                    c2, extra2, descr2, _ = make(kind, lib.rng_for(case["seed"], case["idx"], 1919), extra_names=made[:3])
+                    out["adversarial_names"] = made[:3]
+                    try:
+                        convert(c2, extra2)
+                    except Timeout:
+                        raise
+                    except BaseException as e:
+                        if not descriptive(e, own_only=True):
+                            out["fails"].append(("C19", f"Bridge {descr2}: with a register named like a generated submodule name "
+                                                        f"({made[:3]}) elaboration fails with {type(e).__name__}: {str(e)[:100]}",
+                                                 f"adversarial-name:{type(e).__name__}"))
+            except Timeout:
+                raise
+            except (ValueError, TypeError):
+                pass
         if kind in ("csr.Decoder", "wb.Decoder", "Arbiter"):
             # an elaboration in the middle of construction (before later add() calls) must not change the
             # hardware that the finished component elaborates to: compare with an identical twin that
